@@ -97,7 +97,7 @@ EnvTick == /\ Tier = "cubic" /\ nev < MaxEv /\ Quiet /\ RLe(now, RN(2))
 Next == DoSend \/ EnvNewAck \/ EnvDupAck \/ EnvTimeout \/ EnvTick
 Spec == Init /\ [][Next]_vars
 
-Terminal == nev = MaxEv
+Terminal == nev = MaxEv /\ Quiet
 Emit == Terminal => PrintT(<<"EMIT", ToJson([cfg |-> cfg, hist |-> hist])>>)
 
 (* ------------------------------------------------------------- formulas *)
